@@ -375,8 +375,33 @@ class PoolGen:
             self.emit({"op": "Deposit", "acct": r.choice(ACCTS), "amt": r.choice([10, 100, 1000])})
         if self.race:
             self.startup_burst()
+        if self.cfg.get("staircase") and r.random() < 0.7:
+            self.staircase()
         for _ in range(nops):
             self.step()
+            if self.cfg.get("longsleep") and self.conf["unit"] == "1" and self.now < 50000 and r.random() < 0.02:
+                self.sleep(100000)     # a very large elapsed time
+
+    def staircase(self):
+        """a client's balance walks down one unit per keep-alive across the minimum: at the minimum it must
+        still be served, one below it must be cut off"""
+        r = self.r
+        price = self.conf["price"]
+        if self.conf["unit"] != "1" or price not in (1, 60):
+            return
+        d = 60 // price
+        c, h = r.choice(CLIENTS), r.choice(HOSTS)
+        self.connect(h, full=True)
+        self.connect(c, full=False)
+        start = (self.conf["minbal"] if self.conf["hasmin"] else 0) + r.choice([2, 3, 4])
+        self.emit({"op": "AddNodeBalance", "id": c, "amt": start})
+        self.emit(self.signed({"op": "Update", "conn": self.conn_for(c), "peers": [h], "block": 1}, c))
+        for _ in range(7):
+            self.sleep(d)
+            self.emit(self.signed({"op": "Update", "conn": self.conn_for(h), "peers": [c], "block": 1}, h))
+            self.emit(self.signed({"op": "Update", "conn": self.conn_for(c), "peers": [h], "block": 1}, c))
+            if r.random() < 0.3:
+                self.connect(c, full=False)      # a reconnect at / around the threshold
 
     def startup_burst(self):
         """every connected node sends its first keep-alive at the same time, reporting all the others:
